@@ -56,7 +56,7 @@ def run(tier, rep):
         layers, phases, deadline = 'A,B2,C', 3, 1500
     res, d = dxlib.run_dx('plain', cfg, 'c01', layers, 'ref', phases=phases, deadline=deadline, extra=[] if tier == 'quick' else ['--c-cap', '3000000'])
     known = [r for r in res if r.get('ref_available')]
-    if len(known) < 61:
+    if len(known) < 61 and not dxlib.SKIPPED:
         raise SystemExit('HARNESS-ERROR: the reference model accepts only %d background names (61 expected)' % len(known))
     aggregate(rep, res, True, ('ref',), 'genbbsub',
               'state = draw-site context of the reference (Fortran line + call stack), transition = (site, alphabet value) edge; '
